@@ -630,6 +630,7 @@ func (p *Parser) consumeComment(curtoken Token, curlit string) (outtoken Token, 
 			outtoken, outlit = p.scanIgnoreWhitespace()
 			if outtoken == EOF || outtoken == ILLEGAL {
 				err = fmt.Errorf("unmatched bracket")
+				return
 			}
 		}
 	}
